@@ -40,6 +40,9 @@ package bookkeeping
 //      has Branch512 (own)                                  -> part b2, C29:precheck:branch
 //   M4 ledger/eval/eval.go TransactionGroup: "inconsistent group values" check removed (own; the group
 //      hash ignores the Group field, so a member carrying a foreign id slips through) -> part a, gid-foreign-one
+// Part c (ledger/verif_c29_c_test.go): seeded change C29-A (EvalDelta.Equal comparing inner ApplyData with
+// itself) MISSED by parts a/b, DETECTED by part c; own mutants there: M5 eval.go ApplyData comparison skipped
+// (`if false && !ad.Equal(applyData)`), M6 eval.go txn-root comparison skipped — both DETECTED by part c.
 
 import (
 	"fmt"
